@@ -35,6 +35,7 @@ INJECT = {
     "verif_num.rs": ("src/repr/num_to_repr/verif_num.rs", "src/repr/num_to_repr.rs", "#[cfg(kani)]\nmod verif_num;\n", "repr::num_to_repr::verif_num"),
     "verif_lib.rs": ("src/verif_lib.rs", "src/lib.rs", "#[cfg(kani)]\nmod verif_lib;\n", "verif_lib"),
     "verif_conv.rs": ("src/verif_conv.rs", "src/lib.rs", "#[cfg(kani)]\nmod verif_conv;\n", "verif_conv"),
+    "verif_feat.rs": ("src/verif_feat.rs", "src/lib.rs", "#[cfg(kani)]\nmod verif_feat;\n", "verif_feat"),
     "verif_conc.rs": ("src/repr/verif_conc.rs", "src/repr.rs", "#[cfg(kani)]\nmod verif_conc;\n", "repr::verif_conc"),
 }
 
@@ -167,6 +168,13 @@ class Scratch:
                 shutil.copytree(s, d)
             elif os.path.exists(s):
                 shutil.copy2(s, d)
+            elif rel == "Cargo.lock":
+                # Cargo.lock is git-ignored in this repository: a git worktree of it has none
+                if os.path.exists("/repo/Cargo.lock"):
+                    shutil.copy2("/repo/Cargo.lock", d)
+                else:
+                    subprocess.run(["cargo", "generate-lockfile", "--offline"], cwd=self.crate,
+                                   env=dict(os.environ, CARGO_NET_OFFLINE="true"), stdout=subprocess.DEVNULL, stderr=subprocess.DEVNULL)
             else:
                 raise Undecided("anchor lost: %s missing in %s" % (rel, REPO))
         self.src_hash, self.src_files = tree_hash(self.crate, ["src", "Cargo.toml"])
